@@ -164,13 +164,27 @@ def run(ctx):
                           ("data.v2/x.frn", None, "rna"), ("a.b.ffn", None, "dna"), ("fna", None, "aa"), ("x.fna", "aa", "aa")):
         got = I.call(g, [fn, typ], {})
         ctx.check(got == want, "R4", f"type of '{fn}' (type={typ}) is {want}", f"got {got!r}", s_g)
-    # load / loadall: first record / every record, typed by the extension
-    I.builtins["open"] = Builtin("open", lambda *a, **k: I.new_obj("fh", None, {"lines": [">p1", "AB", ">p2", "A"]}, open_attrs=set()))
-    I.stubs["fasta.read_fasta"] = lambda I_, a, k: [(">p1", "AB"), (">p2", "A")]
+    # load / loadall: first record / every record, typed by the extension (or by the explicit type)
+    from ptstat.symval import TextFile
+    I.builtins["open"] = Builtin("open", lambda *a, **k: TextFile([">p1", "AA", ">p2", "A"], str(a[0]) if a else "<file>"))
     r = I.lib.iterate(I, I.call(I.getattr(Seq, "loadall"), ["x.faa"], {}))
-    ctx.check(isinstance(r, list) and len(r) == 2 and I.getattr(r[0], "sequence") == "AB" and I.getattr(r[1], "sequence") == "A",
+    ctx.check(isinstance(r, list) and len(r) == 2 and I.getattr(r[0], "sequence") == "AA" and I.getattr(r[1], "sequence") == "A",
               "R4", "Sequence.loadall yields one Sequence per record", f"got {_s(r)}", fsite(ctx, "fasta.Sequence.loadall"))
-    ctx.floor("R4", 18)
+    for fn_, typ_, want_ in (("x.fna", None, "dna"), ("x.faa", None, "aa"), ("x.frn", None, "rna"), ("x.fna", "rna", "rna"), ("x.fasta", None, "aa")):
+        for meth in ("load", "loadall"):
+            kw_ = {} if typ_ is None else {"type": typ_}
+            rr_ = raises(lambda: I.lib.iterate(I, I.call(I.getattr(Seq, meth), [fn_], dict(kw_))) if meth == "loadall"
+                         else I.call(I.getattr(Seq, meth), [fn_], dict(kw_)))
+            if rr_ is not None:
+                ctx.fail("R4", f"Sequence.{meth}('{fn_}', type={typ_}) reads the file as {want_}", f"raises {rr_}", fsite(ctx, f"fasta.Sequence.{meth}"))
+                continue
+            got_ = I.call(I.getattr(Seq, meth), [fn_], dict(kw_))
+            first_ = I.lib.iterate(I, got_)[0] if meth == "loadall" else got_
+            ref_ = seq("AA", want_)
+            same_ = I.getattr(I.getattr(first_, "labile_formula"), "atoms") == I.getattr(I.getattr(ref_, "labile_formula"), "atoms")
+            ctx.check(same_, "R4", f"Sequence.{meth}('{fn_}', type={typ_}) reads the file as {want_}",
+                      f"formula {_s(I.getattr(I.getattr(first_, 'labile_formula'), 'atoms'))}, expected that of the {want_} table", fsite(ctx, f"fasta.Sequence.{meth}"))
+    ctx.floor("R4", 28)
 
     # ---- R5 literal tables: averaged codes refer to existing codes ---------------------------
     _tables(ctx)
